@@ -78,7 +78,7 @@ Pipeline(ts, c) ==
        : keep \in keeps }
 
 (* ---- lifecycle ------------------------------------------------------------ *)
-ConfigKeys(c) == [lag |-> c.lag, method |-> c.method, trim |-> c.trim, sliding |-> c.sliding]
+ConfigKeys(c) == [lag |-> c.lag, method |-> c.method, trim |-> c.trim, sliding |-> c.sliding, maxn |-> c.maxn]   \* (maxn since repair 30dd8d6)
 
 Init == /\ trajs \in UNION {[1..n -> Rows] : n \in 1..MaxT}
         /\ given \in Configs
